@@ -39,14 +39,18 @@ theorem calcNext_good (a : Alarm) (cal : Calendar) (t nl : Nat) (hs : a.sod < D)
     have := workday_some a.sod cal a.wd t nl hs ht h
     exact ⟨this.1, by omega⟩
 
+@[simp] theorem armed_target (a : Alarm) (e : Env) (T d : Nat) : (armed a e T d).target = T := rfl
+@[simp] theorem armed_timer (a : Alarm) (e : Env) (T d : Nat) : (armed a e T d).timer = some (e.monoMs + d) := rfl
+@[simp] theorem armed_st (a : Alarm) (e : Env) (T d : Nat) : (armed a e T d).st = .running := rfl
+@[simp] theorem armed_lastServed (a : Alarm) (e : Env) (T d : Nat) : (armed a e T d).lastServed = a.lastServed := rfl
+
 theorem activeTimer_of_none (a : Alarm) (e : Env)
     (hc : calcNext a e.cal (addOff (max e.sec a.target) a.offset) = none) : activeTimer a e = (a, false) := by
   unfold activeTimer; simp only [hc]
 
 theorem activeTimer_of_some (a : Alarm) (e : Env) (nl : Nat)
     (hc : calcNext a e.cal (addOff (max e.sec a.target) a.offset) = some nl) :
-    activeTimer a e = ({ a with timer := some (e.monoMs + delayMs (w32 (subOff nl a.offset + U32 - e.sec)) e.ms),
-                                st := .running, target := subOff nl a.offset }, true) := by
+    activeTimer a e = (armed a e (subOff nl a.offset) (delayMs (w32 (subOff nl a.offset + U32 - e.sec)) e.ms), true) := by
   unfold activeTimer; simp only [hc]
 
 /-- the arithmetic of activeTimer without wrap -/
@@ -72,7 +76,7 @@ theorem env_ms_lt (e : Env) : e.ms < 1000 := by unfold Env.ms; omega
 theorem activeTimer_spec (a : Alarm) (e : Env) (hs : a.sod < D)
     (hr : InRange (max e.sec a.target) a.offset) (hok : (activeTimer a e).2 = true) :
     ∃ nl T d, calcNext a e.cal (addOff (max e.sec a.target) a.offset) = some nl ∧
-      activeTimer a e = ({ a with timer := some (e.monoMs + d), st := .running, target := T }, true) ∧
+      activeTimer a e = (armed a e T d, true) ∧
       (T : Int) + a.offset = nl ∧ max e.sec a.target < T ∧ d + e.ms = (T - e.sec) * 1000 ∧
       Earliest (Matches a e.cal) (addOff (max e.sec a.target) a.offset) nl := by
   cases hc : calcNext a e.cal (addOff (max e.sec a.target) a.offset) with
@@ -93,7 +97,7 @@ theorem activeTimer_fields (a : Alarm) (e : Env) :
     (activeTimer a e).1.subs = a.subs ∧ (activeTimer a e).1.sod = a.sod := by
   cases hc : calcNext a e.cal (addOff (max e.sec a.target) a.offset) with
   | none => rw [activeTimer_of_none a e hc]; simp
-  | some nl => rw [activeTimer_of_some a e nl hc]; simp
+  | some nl => rw [activeTimer_of_some a e nl hc]; simp [armed]
 
 /-- either armed (running, timer set) or untouched -/
 theorem activeTimer_cases (a : Alarm) (e : Env) :
@@ -101,7 +105,7 @@ theorem activeTimer_cases (a : Alarm) (e : Env) :
     ((activeTimer a e).2 = false ∧ (activeTimer a e).1 = a) := by
   cases hc : calcNext a e.cal (addOff (max e.sec a.target) a.offset) with
   | none => rw [activeTimer_of_none a e hc]; simp
-  | some nl => rw [activeTimer_of_some a e nl hc]; simp
+  | some nl => rw [activeTimer_of_some a e nl hc]; simp [armed]
 
 theorem activeTimer_inv (a : Alarm) (e : Env) (h : Inv a) : Inv (activeTimer a e).1 := by
   rcases activeTimer_cases a e with ⟨_, h1, h2⟩ | ⟨_, h1⟩
